@@ -38,12 +38,14 @@ def r1(run):
         return
     pf = [c for c in sv.calls() if c.bb in sv.live_blocks() and c.fn.endswith("Handler::process_frame")]
     run.exact("process_frame call sites", len(pf), 1, sv.sp)
+    from .store_shared import capture_origin
     guards = []
     for bb, si in sv.switches():
         if si["kind"] != "bool":
             continue
         cond = si["cond"]
-        if not (cond[0] == "call" and cond[1].fn in ("core::option::Option::<T>::is_some", "core::option::Option::<T>::is_none")):
+        if not (cond[0] == "call" and cond[1].fn in ("core::option::Option::<T>::is_some", "core::option::Option::<T>::is_none", "core::option::Option::<T>::is_some_and",
+                                                      "core::option::Option::<T>::is_none_or")):
             continue
         if not any(y[0] == "field" and y[2] == "meta" for y in walk(cond)):
             continue
@@ -54,9 +56,14 @@ def r1(run):
                 if c.fn.endswith("Value::get"):
                     keys += q.const_strs(c.arg(1))
                 if c.fn in q.REL_CALL or c.fn == "core::cmp::PartialEq::eq":
-                    if any(cap["name"].endswith("id") and "self" in cap["name"] for cap in cb.captures):
-                        cmp_self = True
-        positive = cond[1].fn.endswith("is_some")
+                    for cap in cb.captures:
+                        if cap["name"].endswith("id") and "self" in cap["name"]:
+                            cmp_self = True
+                        else:
+                            po = capture_origin(run, cb, cap["name"])
+                            if po is not None and any(y[0] == "field" and y[2] == "id" and any(z[0] == "field" and z[1][0] == "env" and z[2] == "self" for z in walk(y)) for y in walk(po[1])):
+                                cmp_self = True
+        positive = cond[1].fn.endswith(("is_some", "is_some_and"))
         guards.append((bb, keys, cmp_self, q.edge_triples(sv, bb, lambda m: m is (not positive))))
     mine = [g for g in guards if "handler_id" in g[1] and g[2]]
     run.exact("own-output tests (meta.handler_id == self.id)", len(mine), 1, sv.sp)
